@@ -116,6 +116,118 @@ def _member_name(f, call):
 # ---------------------------------------------------------------------------
 
 
+class _DispatchPE(StrPE):
+    HANDLERS = ("json_patch_apply_test", "json_patch_apply_remove", "json_patch_apply_add_replace", "json_patch_apply_move_copy")
+
+    def __init__(self, prog, op):
+        super().__init__(prog, max_leaves=200, max_steps=100000)
+        self.op = op
+        self.loop_widen = 1000
+        self.max_visits = 64
+
+    def should_inline(self, g, instr):
+        return g.internal and g.name not in self.HANDLERS
+
+    def init_mem(self, state, base, path, t):
+        for nm, data in (("opstr", self.op), ("pathstr", b"/a")):
+            if base == nm:
+                el, fl = pe.fields_of(path)
+                if not fl and isinstance(el, int) and 0 <= el <= len(data):
+                    b = (data + b"\0")[el]
+                    return pe.C(b if b < 128 else b - 256)
+        if base == "baseptr" and path == ():
+            return ("ptr", "doc", ())
+        return pe.TOP
+
+    def call_model(self, state, frame, i, args):
+        nm = i.callee
+        if nm in self.HANDLERS:
+            state.trace.append(("handler", nm, tuple(a[1] if pe.is_const(a) else None for a in args)))
+            return pe.C(0)
+        if nm == "json_object_is_type":
+            return pe.C(1)
+        if nm == "json_object_array_length":
+            return pe.C(1)
+        if nm == "json_object_array_get_idx":
+            return ("ptr", "elem", ())
+        if nm == "json_object_object_get_ex":
+            key = self._cstr(state, args[1]) if args[1][0] == "ptr" else None
+            tgt = {"op": "jop", "path": "jpath"}.get(key.decode() if key else "", None)
+            if tgt is None:
+                return None
+            if len(args) > 2 and args[2][0] == "ptr":
+                self.store(state, args[2], ("ptr", tgt, ()))
+            return pe.C(1)
+        if nm == "json_object_get_string":
+            if args[0][0] == "ptr" and args[0][1] == "jop":
+                return ("ptr", "opstr", ())
+            if args[0][0] == "ptr" and args[0][1] == "jpath":
+                return ("ptr", "pathstr", ())
+            return None
+        if nm == "__errno_location":
+            return ("ptr", "errno", ())
+        r = self.libc_string_model(state, frame, i, args)
+        if r is not None:
+            return r
+        if nm in ("strncmp", "strcmp", "memcmp", "strcasecmp", "strncasecmp"):
+            a, b = self._cstr(state, args[0]), self._cstr(state, args[1])
+            if a is None or b is None:
+                return None
+            if nm in ("strncmp", "memcmp", "strncasecmp"):
+                if not pe.is_const(args[2]):
+                    return None
+                a, b = a[:args[2][1]], b[:args[2][1]]
+            if "case" in nm:
+                a, b = a.lower(), b.lower()
+            return pe.C((a > b) - (a < b))
+        return None
+
+
+def _r2_by_evaluation(chk, prog, m, f, rid):
+    """operation dispatch decided by evaluating json_patch_apply on a one-operation patch for each candidate name"""
+    expect = {b"test": ("json_patch_apply_test", None), b"remove": ("json_patch_apply_remove", None),
+              b"add": ("json_patch_apply_add_replace", 1), b"replace": ("json_patch_apply_add_replace", 0),
+              b"move": ("json_patch_apply_move_copy", 1), b"copy": ("json_patch_apply_move_copy", 0)}
+    others = [b"", b"ad", b"addx", b"Add", b"tests", b"removeall", b"cop", b"copy ", b"mov", b"replac", b"x", b"spam"]
+    flagpos = {"json_patch_apply_add_replace": 3, "json_patch_apply_move_copy": 3}
+    bad = None
+    und = None
+    n = 0
+    for op in list(expect) + others:
+        h = _DispatchPE(prog, op)
+        try:
+            leaves = h.run(f, [pe.C(0), ("ptr", "patch", ()), ("ptr", "baseptr", ()), ("ptr", "perr", ())], pe.State())
+        except Exception as e:
+            und = und or "evaluation failed for %r: %s" % (op.decode(), str(e)[:60])
+            continue
+        n += 1
+        seen = set()
+        rets = set()
+        for lf in leaves:
+            if lf.kind != "ret":
+                und = und or "evaluation of %r ended with %s" % (op.decode(), lf.kind)
+                continue
+            hs = [e for e in lf.state.trace if e[0] == "handler"]
+            seen.add(tuple((e[1], e[2][flagpos[e[1]]] if e[1] in flagpos and len(e[2]) > flagpos[e[1]] else None) for e in hs))
+            rets.add(lf.value[1] if lf.value is not None and pe.is_const(lf.value) else None)
+        if op in expect:
+            want = {(expect[op],)}
+            if seen != want and bad is None:
+                bad = "operation %r is dispatched to %s, RFC 6902 requires %s" % (op.decode(), sorted(seen), sorted(want))
+        else:
+            if any(x for x in seen) and bad is None:
+                bad = "the unknown operation name %r is executed (%s) instead of being rejected" % (op.decode(), sorted(seen))
+            elif not all(r is not None and r < 0 for r in rets) and bad is None and und is None:
+                bad = "the unknown operation name %r does not make json_patch_apply fail (returns %s)" % (op.decode(), sorted(rets, key=str))
+    if bad:
+        chk.refuted(rid, f.name, "operation dispatch (evaluated)", f.entry.term.locstr(), bad)
+    elif und:
+        chk.undecided(rid, f.name, "operation dispatch (evaluated)", f.entry.term.locstr(), und)
+    else:
+        chk.proven(rid, f.name, "operation dispatch (evaluated)", f.entry.term.locstr(),
+                   "%d names evaluated: the six RFC 6902 names reach their handlers with the right flag, every other name fails" % n)
+
+
 def r2(chk, prog, m):
     rid = "C13.R2"
     chk.rule(rid, "operation dispatch: exactly the six RFC 6902 names are compared, each equal-edge calls the handler with the "
@@ -152,6 +264,10 @@ def r2(chk, prog, m):
     names = sorted(table)
     n = 0
     n += 1
+    if not prefix_sites and sorted(names) != sorted(RFC_OPS):
+        # the dispatch is not a chain of string comparisons with literals (a table, a helper ...): decide it by evaluation
+        _r2_by_evaluation(chk, prog, m, f, rid)
+        return
     if prefix_sites:
         i, name, nb = prefix_sites[0]
         chk.refuted(rid, f.name, "operation names", i.locstr(),
@@ -552,56 +668,27 @@ def _derives_from_param(f, v, pname, depth=0):
 
 def r6(chk, prog, m):
     rid = "C13.R6"
-    chk.rule(rid, "a member name handed to json_object_object_del by the patch code is an unescaped reference token: the key recorded by "
-                  "pointer resolution points into the caller's pointer string (escaped form), so it must be unescaped (on a copy) before "
-                  "it is used as a member name")
+    from . import c12
     jp = prog.module("json_pointer.c")
     chk.require(jp is not None, "json_pointer.c not in the build")
-    # (1) how is json_pointer_get_result.key_in_parent produced?
+    # the script answers pointer resolution with a key that points into the caller's pointer string (escaped form); that is what
+    # json_pointer.c does when some function stores a value derived from its string parameter into key_in_parent
     escaped_sources = []
     for f in [g for g in jp.functions.values() if not g.is_decl]:
         P = Paths(f, prog)
         for i in f.instrs():
             if i.op == "store" and P.path(i.ops[1]).endswith("key_in_parent") and i.ops[0].kind == "reg":
                 for t, pn in f.params:
-                    if t == "i8*" and pn and not f.internal and _derives_from_param(f, i.ops[0], pn):
+                    if t == "i8*" and pn and _derives_from_param(f, i.ops[0], pn):
                         escaped_sources.append((f, i, pn))
-    n = 0
-    for f in _fns(m):
-        P = Paths(f, prog)
-        cfg = cfg_of(f)
-        for i in f.instrs():
-            if i.op == "call" and i.callee in ("json_object_object_del", "json_object_object_add", "json_object_object_get_ex") and \
-                    "key_in_parent" in P.path(i.ops[1]):
-                n += 1
-                chk.touched(f)
-                sig = "%s(%s, %s)" % (i.callee, P.path(i.ops[0]), P.path(i.ops[1]))
-                if not escaped_sources:
-                    chk.proven(rid, f.name, sig, i.locstr(), "pointer resolution records an unescaped key")
-                else:
-                    sf, si, pn = escaped_sources[0]
-                    chk.refuted(rid, f.name, sig, i.locstr(),
-                                "the key recorded by %s (%s) points into the caller's pointer string '%s', i.e. the token in escaped form; it is "
-                                "used here as a member name without being unescaped, so 'remove'/'move' of a member whose name contains '/' or "
-                                "'~' finds nothing and still reports success" % (sf.name, si.locstr(), pn), {"call": i.raw})
-    # uses through an unescaped copy: a local buffer produced by strdup(key_in_parent) and passed to an unescape helper
-    for f in _fns(m):
-        P = Paths(f, prog)
-        cfg = cfg_of(f)
-        for i in f.instrs():
-            if i.op == "call" and i.callee == "json_object_object_del" and "key_in_parent" not in P.path(i.ops[1]):
-                kp = P.path(i.ops[1])
-                src = f.defs.get(i.ops[1].v) if i.ops[1].kind == "reg" else None
-                if src is not None and src.op == "call" and src.callee == "strdup" and "key_in_parent" in P.path(src.ops[0]):
-                    n += 1
-                    chk.touched(f)
-                    un = [c for c in f.instrs() if c.op == "call" and c.callee and "unescape" in c.callee and P.path(c.ops[0]) == kp and cfg.dominates(c, i)]
-                    sig = "%s(%s, copy of key_in_parent)" % (i.callee, P.path(i.ops[0]))
-                    if un or not escaped_sources:
-                        chk.proven(rid, f.name, sig, i.locstr(), "member name is an unescaped private copy of the token")
-                    else:
-                        chk.refuted(rid, f.name, sig, i.locstr(), "the copied token is used as a member name without being unescaped")
-    chk.floor(rid, n, 1, "member-name uses of the recorded key in json_patch.c")
+    if not escaped_sources:
+        chk.rule(rid, "member names used by remove / move are the RFC 6901 decoding of the last reference token")
+        chk.undecided(rid, "json_pointer.c", "key recorded by pointer resolution", "json_pointer.c:1:1",
+                      "no store of a value derived from the pointer string into key_in_parent was found: what the recorded key holds "
+                      "(escaped or decoded token) is not established, so the member names of remove / move are not decided")
+        return
+    nf, n = c12.r8(chk, prog, m, rid)
+    chk.floor(rid, nf, 1, "functions of json_patch.c that hand a member name to the object API")
 
 
 # ---------------------------------------------------------------------------
